@@ -274,6 +274,23 @@ def main(argv):
             for (verdict, name), obs in shown.items():
                 o = obs[0]
                 print('     %-9s %-55s x%d path %s %.2fs %s %s' % (verdict, name, len(obs), o['path'], o['seconds'], o['detail'], (json.dumps(o['model'], default=str) if o['model'] else '')[:int(os.environ.get('PYVC_MODEL_CHARS', '300'))]))
+    # ---- Lean lemmas mirrored as SMT assumptions: re-checked on every run
+    lean_results = []
+    for lf in getattr(mod, 'LEAN', []) if not only else []:
+        t1 = time.time()
+        try:
+            pr = subprocess.run(['lean', os.path.join(HERE, lf)], capture_output=True, text=True, timeout=900)
+            ok = pr.returncode == 0 and 'error' not in pr.stdout and 'sorry' not in pr.stdout + pr.stderr
+            detail = (pr.stdout + pr.stderr)[-400:]
+        except Exception as e_:       # lean missing / timeout
+            ok, detail = False, repr(e_)
+        src_l = open(os.path.join(HERE, lf)).read()
+        ntheorems = len(re.findall(r'^theorem ', src_l, flags=re.M))
+        if re.search(r'\b(sorry|admit|axiom)\b', re.sub(r'/-.*?-/', '', src_l, flags=re.S)):
+            ok, detail = False, 'sorry/axiom in ' + lf
+        lean_results.append({'file': lf, 'theorems': ntheorems, 'accepted': ok, 'seconds': round(time.time() - t1, 2)})
+        if not ok:
+            errors.append((lf, ('internal', 'lean did not accept %s: %s' % (lf, detail))))
     # ---- baseline (vacuity / shrinkage guard)
     base_path = os.path.join(HERE, 'baselines', prop + '.json')
     shrink = []
@@ -402,6 +419,7 @@ def main(argv):
             'paths_explored': sum(f['paths'] for f in funcs),
             'solver_queries': stats.get('queries', 0),
             'back_ends': backends,
+            'lean_lemmas': lean_results,
             'samples': samples[:40],
             'baseline_missing_names': shrink,
             'known_findings': [dict(f, hits=len(known_hits.get(f['id'], [])), **known_replays.get(f['id'], {})) for f in finding_lines],
